@@ -454,6 +454,11 @@ func (x *Exec) coerce(v *Value, t types.Type) *Value {
 		}
 		return &Value{T: t, P: &Pointer{Base: v.Tm}}
 	}
+	if v.P != nil && !v.P.simple() {
+		// an interior pointer passed where an interface is expected: keep it as a pointer value
+		// (usable by contracts that dereference it; not storable)
+		return v
+	}
 	if v.P != nil {
 		// pointer flowing into interface / unsafe: keep the plain reference
 		if _, isIface := t.Underlying().(*types.Interface); isIface && v.T != nil && isPointer(v.T) {
